@@ -1194,7 +1194,11 @@ func c02EndOfStream(c *lib.Ctx, modelOK bool) {
 	lostSeen := map[int]bool{}
 	for _, server := range []string{"os", "rs"} {
 		o := obs{Server: server, Runs: runs, LostHist: map[string]int{}}
+		kase := lib.NewCase("c02/end-of-stream/" + server)
 		for k := 0; k < runs; k++ {
+			if c.StopN(kase.Class(), runs-k) {
+				break
+			}
 			var srv *peers.Srv
 			if server == "os" {
 				var err error
@@ -1207,7 +1211,7 @@ func c02EndOfStream(c *lib.Ctx, modelOK bool) {
 				g := &gRS{hub: newHub(false), obj: map[string]*gRSFile{}}
 				srv = peers.StartRS(g.handlers(gIfaces{}))
 			}
-			if _, err := srv.Handshake(); err != nil {
+			if _, err := hHandshake(srv, kase); err != nil {
 				r.Fail(lib.Failure{Kind: "tie", Key: "harness/handshake", What: err.Error()})
 				return
 			}
@@ -1217,7 +1221,7 @@ func c02EndOfStream(c *lib.Ctx, modelOK bool) {
 			}
 			srv.Send(stream)
 			srv.CloseInput()
-			if _, ok := srv.Wait(gDeadline); !ok {
+			if _, ok := hWaitSrv(srv, kase, gDeadline); !ok {
 				r.Fail(lib.Failure{Kind: "oracle", Key: "shutdown/serve-did-not-return/" + server, What: "Serve still running 20 s after the end of the input",
 					Input: map[string]any{"server": server, "requests": "5 x STAT /, then end of input"}})
 				break
